@@ -13,11 +13,15 @@ func zzInvalidCfg(rich bool) *Config {
 	variant := 7
 	if rich {
 		c.Credentialed = zzBool()
-		variant = zzChoose(8)
+		variant = zzChoose(9)
 	}
 	switch variant {
 	case 0:
 		c.Origins = nil
+	case 8:
+		// defective patterns listed after `*`
+		c.Credentialed = false
+		c.Origins = []string{"*", "https://bad.example/", "null"}
 	case 1:
 		c.Origins = []string{"https://other.example", "https://bad.example/"}
 	case 2:
